@@ -839,10 +839,9 @@ func (sema *ExprSemanticsChecker) checkBuiltinFuncCall(n *FuncCallNode, sig *Fun
 		if !ok {
 			return sig.Ret
 		}
-		var v any
-		err := json.Unmarshal([]byte(lit.Value), &v)
+		t, err := typeOfJSONText([]byte(lit.Value))
 		if err == nil {
-			return typeOfJSONValue(v)
+			return t
 		}
 		if s, ok := err.(*json.SyntaxError); ok {
 			sema.errorf(lit, "broken JSON string is passed to fromJSON() at offset %d: %s", s.Offset, s)
